@@ -13,7 +13,13 @@ import (
 )
 
 func (core *JApiCore) buildCatalog() *jerr.JApiError {
-	if len(core.directivesWithPastes) != 0 && core.directivesWithPastes[0].Type() != directive.Jsight {
+	if len(core.directivesWithPastes) == 0 {
+		// A document without any directive (an empty file, comments or MACRO definitions only)
+		// has no JSIGHT directive either.
+		return core.japiError(jerr.DirectiveJSIGHTShouldBeTheFirst, 0)
+	}
+
+	if core.directivesWithPastes[0].Type() != directive.Jsight {
 		return core.directivesWithPastes[0].KeywordError(jerr.DirectiveJSIGHTShouldBeTheFirst)
 	}
 
